@@ -12,6 +12,18 @@ import (
 
 // ---- store monitor: determinism table (C08 clause 3) and canonical-encoding monitor (C14) ----
 
+// monitorTripped reports (and files) a write-monitor violation of the given disk before
+// anything it stored is read back.
+func (w *World) monitorTripped(d *SimDisk) bool {
+	if len(d.MonViol) == 0 {
+		return false
+	}
+	mv := d.MonViol[0]
+	d.MonViol = nil
+	w.failFor("C08", mv.Clause, "%s", mv.Detail)
+	return true
+}
+
 func (w *World) decodable() bool {
 	return w.cfg.Format == FmtBinary || w.cfg.Marshaler != "gob"
 }
@@ -354,6 +366,9 @@ func (w *World) opCanon(op *Op) {
 		if midPersist && i == len(plan)/2 {
 			// persist and reload mid-way
 			fr := w.schedMakeRoot(m, disk, 0, 0, "", false)
+			if w.monitorTripped(disk) {
+				return
+			}
 			if fr.res.bad() || fr.deadlock {
 				w.failFor("C01", "persist-fails", "twin mid persist: %s", fr.res)
 				return
@@ -391,6 +406,9 @@ func (w *World) opCanon(op *Op) {
 		return
 	}
 	fr := w.schedMakeRoot(m, disk, 0, 0, "", false)
+	if w.monitorTripped(disk) {
+		return
+	}
 	if fr.res.bad() || fr.deadlock {
 		w.failFor("C01", "persist-fails", "twin persist: %s", fr.res)
 		return
